@@ -14,6 +14,7 @@ import Pyunicorn.Lemmas.NsiBetwKernel
 import Pyunicorn.Lemmas.NsiWrapped
 import Pyunicorn.Lemmas.NsiBetwTargets
 import Pyunicorn.Lemmas.NsiWrappedArenas
+import Pyunicorn.Lemmas.NsiGJ
 import Pyunicorn.Model.NsiMeasures
 /-!
 # C02 — Node-splitting invariance of all n.s.i. measures
@@ -1198,6 +1199,105 @@ example :
       newmanSolves (subGr (split compG 4 (1/4)) (compNodes (split compG 4 (1/4)) a))) = true ∧
     newmanAll path5 false = some ((List.range 5).map (nsiNewman path5 (newmanTof path5) false)) ∧
     (newmanAll path5 false).map (fun l => l.getD 2 0) = some (4/3) := by
+  decide +kernel
+
+/-! ### Round 5e: the executable Gauss–Jordan inverse is correct — no linear-algebra hypothesis left
+
+`Circuit.inverse` (C18's exact Gauss–Jordan elimination, the model of `scipy.sparse.linalg.inv` on
+`sp_M[:-1,:-1]` that `groundedInv` / `newmanT` / `newmanAll` / `newmanWrapped` run) returns a
+two-sided inverse whenever it returns a matrix (`Lemmas/NsiGJ.lean`: one column step of C18's list
+code satisfies the entry-wise statement of C10's `gjStep_spec`, so C10's invariant `gjInv_step` and
+`left_inverse_is_right` apply).  With it the flag `csolves` of the driver is true by theorem, and
+the hypotheses `SolvesL` / `SolvesR` / `IsGroundedInv` of the round-5d theorems are discharged. -/
+
+/-- **C18's Gauss–Jordan elimination is correct**: whenever `Circuit.inverse n A` returns `P`,
+`P A = 1` and `A P = 1` on the leading `n × n` block (for every rational matrix `A`) -/
+theorem circuit_inverse_two_sided (n : Nat) (A P : Nat → Nat → Rat)
+    (h : Circuit.inverse n A = some P) :
+    (∀ i j, i < n → j < n → sumR n (fun l => P i l * A l j) = if i = j then 1 else 0) ∧
+    (∀ i j, i < n → j < n → sumR n (fun l => A i l * P l j) = if i = j then 1 else 0) :=
+  inverse_two_sided n A P h
+
+/-- what `groundedInv` (the model of `sp_M_inv`) returns is a grounded inverse: zero last row /
+column, the leading block a two-sided inverse of the leading block of `M` -/
+theorem grounded_inv_is_grounded_inv (n : Nat) (M T : Nat → Nat → Rat)
+    (h : groundedInv n M = some T) : IsGroundedInv n M T :=
+  groundedInv_isGroundedInv n M T h
+
+/-- **`SolvesL` / `SolvesR` hold for the executable inverse** of every undirected network with
+positive node weights on which the elimination finds all pivots — what the driver's flags `solves` /
+`csolves` evaluate per case is true by theorem -/
+theorem newman_tof_solves (H : Gr) (hn : 0 < H.n) (hw : ∀ k, k < H.n → 0 < H.w k)
+    (hsym : ∀ i j, H.adj i j = H.adj j i) (h : (newmanT H).isSome = true) :
+    SolvesL H.n (nsiQ H) (newmanM H) (newmanTof H) ∧ SolvesR H.n (newmanM H) (newmanTof H) :=
+  grounded_inverse_solves H hn hw hsym _ (newmanTof_grounded H h)
+
+/-- **Node-splitting invariance of `newmanWrapped`, unconditional**: the only hypotheses left are
+that the modelled component loop returns an array on the network and on its split copy — no flag
+`csolves`, no `SolvesL` / `SolvesR`, no `IsGroundedInv`.  On every undirected loop-free network with
+positive node weights, every node `v`, every `0 < p < 1`, both values of `add_local_ends`: `r'` has
+one entry more, agrees with `r` on the old nodes, and the twin carries `v`'s entry. -/
+theorem nsi_newman_wrapped_split_unconditional (G : Gr) (hsym : ∀ i j, G.adj i j = G.adj j i)
+    (hloop : ∀ i, G.adj i i = false) (hw : ∀ k, k < G.n → 0 < G.w k) (v : Nat) (p : Rat)
+    (hv : v < G.n) (hp0 : 0 < p) (hp1 : p < 1) (ends : Bool) (r r' : List Rat)
+    (hr : newmanWrapped G ends = some r) (hr' : newmanWrapped (split G v p) ends = some r') :
+    r'.length = r.length + 1 ∧
+    (∀ a, a < G.n → r'.getD a 0 = r.getD a 0) ∧ r'.getD G.n 0 = r.getD v 0 := by
+  have h1 := perComponent_eq_perNode G hsym _ _ r ((newmanWrapped_eq G ends).symm.trans hr)
+  have h2 := perComponent_eq_perNode (split G v p) (split_adj_symm G v p hsym) _ _ r'
+    ((newmanWrapped_eq (split G v p) ends).symm.trans hr')
+  refine newmanWrapped_split G hsym hloop hw v p hv hp0 hp1 ends r r' hr hr' (fun a ha => ?_)
+    (fun a ha => ?_)
+  · have hc := collapse_lt_n G.n v a hv ha
+    by_cases hlen : 2 ≤ (compNodes G (collapse G.n v a)).length
+    · exact (newman_tof_solves _ (by simp only [subGr_n]; omega)
+        (subGr_weights_pos G _ (fun x hx => compNodes_lt _ _ x hx) hw) (fun i j => hsym _ _)
+        (perNode_newman_isSome G ends _ _ (h1.2 _ hc) hlen)).1
+    · exact solvesL_small _ (by simp only [subGr_n]; omega) _ _ _
+  · by_cases hlen : 2 ≤ (compNodes (split G v p) a).length
+    · exact (newman_tof_solves _ (by simp only [subGr_n]; omega)
+        (subGr_weights_pos (split G v p) _ (fun x hx => compNodes_lt _ _ x hx)
+          (split_weights_pos G v p hv hp0 hp1 hw))
+        (fun i j => split_adj_symm G v p hsym _ _)
+        (perNode_newman_isSome (split G v p) ends a _ (h2.2 a ha) hlen)).2
+    · exact solvesR_small _ (by simp only [subGr_n]; omega) _ _
+
+/-- the flag the correspondence demands (`solves` / `csolves`) is implied: wherever `newmanAll`
+returns a list on an undirected network with positive node weights, the two conditions that
+`newmanSolves` evaluates hold for the executable inverse -/
+theorem newman_all_some_solves (H : Gr) (hn : 0 < H.n) (hw : ∀ k, k < H.n → 0 < H.w k)
+    (hsym : ∀ i j, H.adj i j = H.adj j i) (ends : Bool) (l : List Rat)
+    (h : newmanAll H ends = some l) :
+    SolvesL H.n (nsiQ H) (newmanM H) (newmanTof H) ∧ SolvesR H.n (newmanM H) (newmanTof H) := by
+  refine newman_tof_solves H hn hw hsym ?_
+  rw [newmanAll_eq] at h
+  cases hT : newmanT H with
+  | none => rw [hT] at h; simp at h
+  | some T => rfl
+
+/-- non-vacuity (Gauss–Jordan): the elimination returns on a 3 × 3 matrix that needs a row swap
+(zero in the first pivot position), and the result is the inverse; it returns `none` on a singular
+matrix — the hypothesis of `circuit_inverse_two_sided` is neither always true nor always false -/
+example :
+    let A : Nat → Nat → Rat := fun i j => ([[0, 2, 1], [1, 1, 0], [3, 0, 1]].getD i []).getD j 0
+    (Circuit.inverse 3 A).map (fun P => Circuit.ofFun 3 P) =
+      some ([[-1, 2, 1], [1, 3, -1], [3, -6, 2]].map (fun r => r.map (· / (5 : Rat)))) ∧
+    (Circuit.inverse 2 (fun _ _ => (1 : Rat))).isNone = true := by
+  decide +kernel
+
+/-- non-vacuity (unconditional theorem): its hypotheses hold on `compG` split at node 2 (twin joins
+{2,3}) and at the isolated node 4 (the shortcut becomes a 2-node elimination), both values of
+`add_local_ends`; and on `path5` split in the middle, where the grounded inverse is 4 × 4 / 5 × 5 -/
+example :
+    newmanWrapped compG true = some [9, 9, 16, 16, 4] ∧
+    newmanWrapped (split compG 2 (1/4)) true = some [9, 9, 16, 16, 4, 16] ∧
+    newmanWrapped (split compG 4 (1/4)) true = some [9, 9, 16, 16, 4, 4] ∧
+    (newmanWrapped compG false).isSome = true ∧
+    (newmanWrapped (split compG 2 (1/4)) false).isSome = true ∧
+    (newmanWrapped path5 false).map (fun l => l.getD 2 0) = some (4/3) ∧
+    (newmanWrapped (split path5 2 (1/4)) false).map (fun l => (l.getD 2 0, l.getD 5 0)) =
+      some (4/3, 4/3) ∧
+    (newmanT path5).isSome = true ∧ (newmanT (split path5 2 (1/4))).isSome = true := by
   decide +kernel
 
 /-- **Node-splitting invariance of `arenasWrapped` itself** (`nsi_arenas_betweenness` through the
